@@ -248,3 +248,19 @@ check(
     "DESIGN.md section 3 C06",
     "gridlab",
 )
+
+ENGINES[-1 if ENGINES[-1]["name"] == "gridlab" else 2]["serves_properties"].append("C07")
+check(
+    "C07",
+    "exploration",
+    "For generated grids (tokamak family with non-constant fpol, both signs, orthogonal and non-orthogonal; circular with "
+    "one and two q coefficients) curl_bOverB_x/y/z at centre, ylow (and xlow on orthogonal grids) are compared with "
+    "curl(b/B) of the harness' reference field projected on grad x = grad psi, grad y (perpendicular to the measured "
+    "radial grid direction, magnitude 1/(hy cos beta)) and grad z; bxcv* = Bxy/2 x curl*; metamorphic: the two "
+    "curvature_type formulations converge to each other under (nx,ny) -> (2nx,2ny).",
+    "Trusted base: harness' own curl chain (self-tested against finite differences of an analytic field) on the "
+    "reference interpolant. Tolerance 1e-6 relative.",
+    "generated-grid PBT with reference-field oracle + metamorphic resolution doubling",
+    "DESIGN.md section 3 C07",
+    "gridlab",
+)
